@@ -56,7 +56,7 @@ pub fn spec(prop: &str) -> Spec {
         "C05" => (vec![s("proxy:C05", 1)], 1200, 300000),
         "C06" => (vec![s("ebpf:C06", 1)], 400, 20000),
         "C07" => (vec![s("proxy:C07", 1)], 1500, 300000),
-        "C08" => (vec![s("crash:C08", 1)], 16, 4000),
+        "C08" => (vec![s("crash:C08", 1)], 48, 4000),
         "C09" => (vec![s("keeper:C09", 1)], 1000, 100000),
         "C10" => (vec![s("keeper:C10", 1)], 1500, 200000),
         "C11" => (vec![s("proxy:C11", 1)], 1000, 100000),
